@@ -88,3 +88,10 @@ package util
 //@   ensures result <==> exists i int :: 0 <= i && i < len(ss) && ss[i] == s
 //@   loop 1 invariant -1 <= rangeindex && rangeindex < len(ss)
 //@   loop 1 invariant forall j int :: 0 <= j && j <= rangeindex ==> ss[j] != s
+
+// stripANSI(b): b without its complete terminal escape sequences (regex-driven, body not verified)
+//@ spec stripANSI(b []byte) []byte
+//@ func StripANSI
+//@   noverify
+//@   pure
+//@   ensures result === stripANSI(b)
